@@ -643,6 +643,18 @@ def install(lib):
             return Arr(z3.K(INT, z3.RealVal(0)), shape[0])
         raise Unsupported("zeros(shape)")
 
+    def np_all(ex, x, axis=None, **k):
+        if isinstance(x, Arr):
+            jv = z3.Int(f"j!all{next(ex.fresh_n)}")
+            return z3.ForAll([jv], z3.Implies(z3.And(0 <= jv, jv < x.n), z3.Select(x.a, jv)))
+        return ex.truth(x)
+
+    def np_any(ex, x, axis=None, **k):
+        if isinstance(x, Arr):
+            jv = z3.Int(f"j!any{next(ex.fresh_n)}")
+            return z3.Exists([jv], z3.And(0 <= jv, jv < x.n, z3.Select(x.a, jv)))
+        return ex.truth(x)
+
     def np_amax(ex, x, axis=None, **k):
         if isinstance(x, Arr):
             return axiomatize_max(ex, [], x, "max")
@@ -653,7 +665,7 @@ def install(lib):
             return axiomatize_max(ex, [], x, "min")
         return x
 
-    common = dict(flip=np_flip, searchsorted=np_searchsorted, max=np_amax, min=np_amin, amax=np_amax, amin=np_amin, zeros=np_zeros, interp=np_interp, argwhere=np_argwhere, ones=np_ones, arange=np_arange, array=np_array, asarray=np_asarray, where=np_where, clip=np_clip, roll=np_roll, take=np_take, maximum=np_maximum, minimum=np_minimum,
+    common = dict(all=np_all, any=np_any, flip=np_flip, searchsorted=np_searchsorted, max=np_amax, min=np_amin, amax=np_amax, amin=np_amin, zeros=np_zeros, interp=np_interp, argwhere=np_argwhere, ones=np_ones, arange=np_arange, array=np_array, asarray=np_asarray, where=np_where, clip=np_clip, roll=np_roll, take=np_take, maximum=np_maximum, minimum=np_minimum,
                   isnan=np_isnan, ceil=np_ceil, floor=np_floor, sqrt=np_sqrt, zeros_like=np_zeros_like, ones_like=np_ones_like,
                   logical_and=np_logical("and"), logical_or=np_logical("or"), logical_not=np_logical_not, exp=np_exp, log=np_log, tanh=np_tanh,
                   arctanh=np_arctanh, abs=b_abs, square=lambda ex, x: ex.binop(ast.Mult(), x, x),
